@@ -194,7 +194,9 @@ pub fn simple_model(input: &[u8]) -> Option<Vec<(u8, u8, u8)>> {
                         k = groups.len();
                         continue;
                     }
-                    _ => return None,
+                    // every other code has no representation in fg/bg: no effect (this includes
+                    // values above 255 - a code is not its low byte)
+                    _ => {}
                 }
                 k += 1;
             }
@@ -600,6 +602,17 @@ pub fn execute(t: &Trace, stats: &mut Stats, record: bool) -> Outcome {
         let d = delivered_tagged(&h);
         if d != whole {
             violation = Some(viol(mismatch_class(&d, &whole), format!("end of history: console received {} expected {}", show(&d), show(&whole))));
+        } else if let Some(m) = &text_model {
+            // everything was reported consumed: for inputs of the well-formed escape grammar the
+            // text handed over must be *all* of the visible text, not just a prefix of it (the
+            // one-shot extractor, which `whole` comes from, could lose text the same way)
+            let dt: Vec<u8> = d.iter().map(|x| x.0).collect();
+            if dt != *m {
+                violation = Some(viol(
+                    if dt.len() < m.len() { "lost-text" } else { "wrong-text" },
+                    format!("end of history: every input byte was reported consumed and the console received the text {:?}, but an independent reading of this input's escape sequences (VT500 parser model) leaves the visible text {:?}", lossy(&dt), lossy(m)),
+                ));
+            }
         }
     }
     if twin.is_some() {
